@@ -10,10 +10,15 @@
 
     * values: the `PyV` of the hand model (None, str, int, bool, DOMTokenList, an ancestor element, an opaque object),
       tuples of those, module-level singleton objects of feature-less classes (`EMPTY_IS_INVALID`), exception classes
-      and instances (by class name, as `Gen.Inv.raise` does), and other classes (only as the result of `x.__class__`);
+      and instances (by class name, as `Gen.Inv.raise` does), other classes (only as the result of `x.__class__`), and
+      an element `em` = the hand model's element state `Conv.Elem`, whose `tagName`, `getAttribute(name[, default])` and
+      `hasAttribute(name)` ARE the hand model's (`Elem.tag`, `Elem.getAttribute genTables`, `Elem.hasAttribute`: Tags.py
+      stays hand-modelled) with the tables regenerated from the source;
     * primitives are those of the hand model: `int(x)` = `Conv.pyInt parseInt` (`parseInt` = Python's `int()` on text,
       a parameter), `bool(x)` = `Conv.truthy`, `tostr(x)`/`str(x)` = `Conv.tostr`, `hasattr(x,'lower')` = `Conv.hasLower`,
       `s.lower()` = `AHP.lower` (ASCII), `s.replace(a, b)` = `replaceAll` (below);
+    * calls bind positional arguments, then keyword arguments by name, then defaults; an unknown keyword, a parameter given
+      twice, a missing or a surplus argument is a `TypeError`;
     * `==` between model values is `pyEqV` (numbers compare across int/bool; an opaque object equals only itself);
       `is` is decided only when one side is a unique object (None, True/False, a singleton, a class) and refuses otherwise;
       `<`/`>`/`<=`/`>=` only between numbers, `TypeError` otherwise (text ordering is refused);
@@ -32,6 +37,8 @@ open AHP AHP.Gen AHP.Conv
 
 /-! ### values -/
 
+deriving instance DecidableEq for AHP.Conv.Elem
+
 inductive Val where
   | py (v : PyV)                   -- a value of the hand model
   | tuple (vs : List PyV)          -- a tuple (or list) of such values
@@ -39,6 +46,7 @@ inductive Val where
   | excType (name : String)        -- an exception class
   | excInst (name : String)        -- an instance of that exception class
   | cls (name : String)            -- any other class
+  | elem (e : Elem)                -- an element (AdvancedTag), as the hand model's element state
   deriving DecidableEq, Repr, Inhabited
 
 def unsupported (what : String) : PyErr := .other ("unsupported:" ++ what)
@@ -73,6 +81,7 @@ def pyEq (x y : Val) : Except PyErr Bool :=
   | .excType a => (match y with | .excType b => .ok (a = b) | _ => .ok false)
   | .cls a => (match y with | .cls b => .ok (a = b) | _ => .ok false)
   | .excInst _ => (match y with | .excInst _ => .error (unsupported "==") | _ => .ok false)
+  | .elem _ => (match y with | .elem _ => .error (unsupported "==") | _ => .ok false)
 
 /-- Objects of which there is exactly one: `is` is then structural equality of the representation. -/
 def Val.unique : Val → Bool
@@ -111,6 +120,7 @@ def pyIn (x c : Val) : Except PyErr Bool :=
   | .tuple vs => (match x with
       | .py a => .ok (vs.any (fun e => pyEqV a e))
       | .excInst _ => .error (unsupported "in")
+      | .elem _ => .error (unsupported "in")
       | _ => .ok false)
   | _ => .error (unsupported "in")
 
@@ -147,7 +157,7 @@ def typeName : PyV → String
   | .ancestor _ => "AdvancedTag"
   | .opaque w => w
 
-/-- `x.a` — only `__class__`. -/
+/-- `x.a` — `__class__` of anything, `tagName` of an element. -/
 def getAttr (x : Val) (a : String) : Except PyErr Val :=
   if a = "__class__" then
     match x with
@@ -157,6 +167,11 @@ def getAttr (x : Val) (a : String) : Except PyErr Val :=
     | .excInst n => .ok (.excType n)
     | .excType _ => .ok (.cls "type")
     | .cls _ => .ok (.cls "type")
+    | .elem _ => .ok (.cls "AdvancedTag")
+  else if a = "tagName" then
+    match x with
+    | .elem e => .ok (.py (.str e.tag.toList))
+    | _ => .error (unsupported "attribute tagName")
   else .error (unsupported ("attribute " ++ a))
 
 /-- `s.replace(a, b)` for a non-empty `a` (left to right, non-overlapping), with fuel = length of `s`. -/
@@ -170,7 +185,8 @@ def replaceFuel (a b : Str) : Nat → Str → Str
 
 def replaceAll (a b s : Str) : Str := replaceFuel a b (s.length + 1) s
 
-/-- `x.m(args)` — `str.lower()`, `str.replace(old, new)` with a non-empty `old`. -/
+/-- `x.m(args)` — `str.lower()`, `str.replace(old, new)` with a non-empty `old`; `em.getAttribute(name[, default])`,
+`em.hasAttribute(name)` (the hand model's, over the generated tables). -/
 def callMethod (x : Val) (m : String) (args : List Val) : Except PyErr Val :=
   match x with
   | .py (.str s) =>
@@ -183,6 +199,17 @@ def callMethod (x : Val) (m : String) (args : List Val) : Except PyErr Val :=
        | [.py (.str a), .py (.str b)] =>
          if a = [] then .error (unsupported "replace of the empty string") else .ok (.py (.str (replaceAll a b s)))
        | _ => .error .typeError)
+    else .error (unsupported ("method " ++ m))
+  | .elem e =>
+    if m = "getAttribute" then
+      (match args with
+       | [.py (.str n)] => .ok (.py (e.getAttribute genTables (String.ofList n) .none))
+       | [.py (.str n), .py d] => .ok (.py (e.getAttribute genTables (String.ofList n) d))
+       | _ => .error (unsupported "getAttribute"))
+    else if m = "hasAttribute" then
+      (match args with
+       | [.py (.str n)] => .ok (.py (.bool (e.hasAttribute (String.ofList n))))
+       | _ => .error (unsupported "hasAttribute"))
     else .error (unsupported ("method " ++ m))
   | _ => .error (.other "AttributeError")
 
@@ -245,6 +272,8 @@ inductive Expr where
   | and (a b : Expr)
   | or (a b : Expr)
   | call (f : String) (args : List Expr)                -- f(args): a builtin or a function of the module
+  | callk (f : String) (args : List Expr) (kws : List String) (kwvals : List Expr)
+                                                        -- f(args, k1=v1, …): `kws` and `kwvals` have the same length
   | callv (f : Expr) (args : List Expr)                 -- (f)(args): calling a value
   | attr (e : Expr) (a : String)                        -- e.a
   | meth (e : Expr) (m : String) (args : List Expr)     -- e.m(args)
@@ -274,8 +303,8 @@ abbrev Env := List (String × Val)
 
 structure Ctx where
   parseInt : Str → Except PyErr Int
-  /-- the functions of the module that are visible -/
-  funs : String → Option (List Val → Except PyErr Val)
+  /-- the functions of the module that are visible: positional arguments, keyword arguments -/
+  funs : String → Option (List Val → List (String × Val) → Except PyErr Val)
 
 def toTuple : List Val → Except PyErr Val
   | vs => if vs.all (fun v => match v with | .py _ => true | _ => false)
@@ -299,7 +328,19 @@ def eval (cx : Ctx) (env : Env) : Expr → Except PyErr Val
   | .call f args =>
     (match evalList cx env args with
      | .error e => .error e
-     | .ok vs => (match cx.funs f with | some g => g vs | none => builtin cx.parseInt f vs))
+     | .ok vs => (match cx.funs f with | some g => g vs [] | none => builtin cx.parseInt f vs))
+  | .callk f args kws kwvals =>
+    (match evalList cx env args with
+     | .error e => .error e
+     | .ok vs =>
+       (match evalList cx env kwvals with
+        | .error e => .error e
+        | .ok kvs =>
+          if kws.length = kvs.length then
+            (match cx.funs f with
+             | some g => g vs (kws.zip kvs)
+             | none => .error (unsupported "keyword arguments of a builtin"))
+          else .error (unsupported "malformed call")))
   | .callv f args =>
     (match eval cx env f with
      | .error e => .error e
@@ -363,25 +404,37 @@ def execH (cx : Ctx) (env : Env) (err : PyErr) : List Handler → Env × Res
   | .mk ty body :: hs => if catches ty err then execL cx env body else execH cx env err hs
 end
 
-/-- Positional arguments, then the defaults (evaluated in the empty environment). `none`: wrong number of arguments. -/
-def bindArgs (cx : Ctx) : List (String × Option Expr) → List Val → Option (Except PyErr Env)
-  | [], [] => some (.ok [])
-  | [], _ :: _ => none
-  | (x, _) :: ps, v :: vs =>
-    (match bindArgs cx ps vs with
-     | some (.ok env) => some (.ok ((x, v) :: env))
-     | r => r)
-  | (x, some d) :: ps, [] =>
-    (match eval cx [] d with
-     | .error e => some (.error e)
-     | .ok v => (match bindArgs cx ps [] with
+/-- Positional arguments, then keyword arguments by name, then the defaults (evaluated in the empty environment).
+`none`: a `TypeError` of the call (missing / surplus argument, unknown keyword, parameter given twice). -/
+def bindArgs (cx : Ctx) : List (String × Option Expr) → List Val → List (String × Val) → Option (Except PyErr Env)
+  | [], [], kws => if kws.isEmpty then some (.ok []) else none
+  | [], _ :: _, _ => none
+  | (x, _) :: ps, v :: vs, kws =>
+    if (kws.lookup x).isSome then none
+    else
+      (match bindArgs cx ps vs kws with
+       | some (.ok env) => some (.ok ((x, v) :: env))
+       | r => r)
+  | (x, d) :: ps, [], kws =>
+    (match kws.lookup x with
+     | some v =>
+       (match bindArgs cx ps [] (kws.filter (fun p => p.1 != x)) with
         | some (.ok env) => some (.ok ((x, v) :: env))
-        | r => r))
-  | (_, none) :: _, [] => none
+        | r => r)
+     | none =>
+       (match d with
+        | none => none
+        | some d =>
+          (match eval cx [] d with
+           | .error e => some (.error e)
+           | .ok v =>
+             (match bindArgs cx ps [] kws with
+              | some (.ok env) => some (.ok ((x, v) :: env))
+              | r => r))))
 
-/-- Call the function with positional arguments. Falling off the end returns `None`. -/
-def run (cx : Ctx) (f : Fun) (args : List Val) : Except PyErr Val :=
-  match bindArgs cx f.params args with
+/-- Call the function with positional and keyword arguments. Falling off the end returns `None`. -/
+def runKw (cx : Ctx) (f : Fun) (args : List Val) (kws : List (String × Val)) : Except PyErr Val :=
+  match bindArgs cx f.params args kws with
   | none => .error .typeError
   | some (.error e) => .error e
   | some (.ok env) =>
@@ -390,17 +443,21 @@ def run (cx : Ctx) (f : Fun) (args : List Val) : Except PyErr Val :=
      | .ret v => .ok v
      | .exc e => .error e)
 
+/-- Call the function with positional arguments. -/
+def run (cx : Ctx) (f : Fun) (args : List Val) : Except PyErr Val := runKw cx f args []
+
 /-- Look a function up in a module given LATEST DEFINITION FIRST: its body sees the definitions before it. -/
-def callIn (parseInt : Str → Except PyErr Int) : List Fun → String → Option (List Val → Except PyErr Val)
+def callIn (parseInt : Str → Except PyErr Int) :
+    List Fun → String → Option (List Val → List (String × Val) → Except PyErr Val)
   | [], _ => none
   | f :: earlier, name =>
-    if f.name = name then some (run { parseInt := parseInt, funs := callIn parseInt earlier } f)
+    if f.name = name then some (runKw { parseInt := parseInt, funs := callIn parseInt earlier } f)
     else callIn parseInt earlier name
 
 /-- Call the function `name` of the module `defs` (definitions in source order). -/
 def runModule (parseInt : Str → Except PyErr Int) (defs : List Fun) (name : String) (args : List Val) : Except PyErr Val :=
   match callIn parseInt defs.reverse name with
-  | some g => g args
+  | some g => g args []
   | none => .error (.other "NameError")
 
 /-! ### the arguments of the hand model as values -/
